@@ -16,8 +16,13 @@ def build_graph(atoms, bonds, labels=None):
     g = nx.Graph()
     labels = labels or list(range(len(atoms)))
     for lab, a in zip(labels, atoms):
-        d = {"element_symbol": a["el"], "atomic_number": Z[a["el"]], "partition": 0,
-             "x_coord": a.get("x", 0), "y_coord": a.get("y", 0), "z_coord": a.get("z", 0)}
+        d = {"element_symbol": a["el"], "atomic_number": Z[a["el"]], "partition": 0}
+        if not a.get("partial"):
+            d.update({"x_coord": a.get("x", 0), "y_coord": a.get("y", 0), "z_coord": a.get("z", 0)})
+        else:  # only the coordinates that are given (a 2D layout, a partly placed molecule)
+            for k in ("x", "y", "z"):
+                if k in a:
+                    d[k + "_coord"] = a[k]
         for k in ("chg", "rad", "mass"):
             if a.get(k):
                 d[k] = a[k]
@@ -199,6 +204,9 @@ def sweep_cases(tier):
     for rad in (1, 2, 3):
         for mass in (1, 2, 13, 99, 100, 999):
             yield (f"rad={rad} mass={mass}", [dict(el="C", rad=rad, mass=mass)], [], None)
+    # graphs carrying only some coordinate attributes
+    yield ("partial-coords", [dict(el="C", x=1.5, y=-2.25, partial=True), dict(el="N", z=3.0, partial=True), dict(el="O", partial=True),
+                              dict(el="H", x=0.5, y=0.5, z=0.5)], [(0, 1, 1), (1, 2, 2), (2, 3, 1)], None)
     # non-default iteration order (labels not ascending)
     yield ("iteration-order", [dict(el="C", x=1.0), dict(el="N", x=2.0), dict(el="O", x=3.0)], [(0, 1, 1), (1, 2, 2)], [2, 0, 1])
 
